@@ -3,30 +3,65 @@ package main
 import (
 	"fmt"
 	"os"
-	"time"
+	"sort"
 
-	"golang.org/x/tools/go/ssa"
 	"verifcheck/internal/prog"
+	"verifcheck/internal/tab"
 )
 
 func main() {
-	t0 := time.Now()
 	p, err := prog.Load("/repo", false, nil)
 	if err != nil {
 		fmt.Println(err)
 		os.Exit(2)
 	}
-	fmt.Fprintln(os.Stderr, "loaded", len(p.Pkgs), "pkgs", len(p.Funcs), "funcs in", time.Since(t0))
-	n := 0
-	for _, f := range p.Funcs {
-		for _, b := range f.Blocks {
-			for _, in := range b.Instrs {
-				if ta, ok := in.(*ssa.TypeAssert); ok && !ta.CommaOk {
-					n++
-					fmt.Printf("%s\t%s\t%s\n", p.InstrPos(ta), p.FuncID(f), p.Term(ta, 4))
-				}
+	what := os.Args[1]
+	switch what {
+	case "tables":
+		ts, _ := tab.ExtractTables(p)
+		var names []string
+		for n := range ts {
+			names = append(names, n)
+		}
+		sort.Strings(names)
+		for _, n := range names {
+			t := ts[n]
+			fmt.Println("==", n, len(t.Rows), t.Errs)
+			for _, r := range t.Rows {
+				fmt.Printf("   %-60s %s %v\n", r.Pattern, r.Func, r.Dup)
 			}
 		}
+	case "schema":
+		s, err := tab.LoadSchema("/repo/schema/compose-spec.json")
+		if err != nil {
+			fmt.Println(err)
+			return
+		}
+		for _, pa := range s.Paths() {
+			n := s.Nodes[pa]
+			fmt.Printf("%-70s %v uniq=%v pat=%v open=%v ext=%v\n", pa, n.KindList(), n.UniqueItems, n.Pattern, n.Open, n.Extensions)
+		}
+		fmt.Println(len(s.Nodes))
+	case "model":
+		m, err := tab.ExtractModel(p)
+		if err != nil {
+			fmt.Println(err)
+			return
+		}
+		for _, pa := range m.Paths() {
+			n := m.Nodes[pa]
+			d := ""
+			if n.Decoder != nil {
+				d += " D"
+			}
+			if n.MarshalY != nil {
+				d += " MY"
+			}
+			if n.MarshalJ != nil {
+				d += " MJ"
+			}
+			fmt.Printf("%-70s %-40s y=%s j=%s%s\n", pa, n.TypeStr, n.YAMLKey, n.JSONKey, d)
+		}
+		fmt.Println(len(m.Nodes), m.Issues)
 	}
-	fmt.Println(n)
 }
